@@ -36,6 +36,8 @@ type RecFS struct {
 	Latency  bool
 	Quiet    bool // oracle mode: no draws, no failures
 	Owner    map[string]string // mountpoint -> which RecFS instance ("generation") created it
+	// Hook is called before and after every backend call (crash points of C09).
+	Hook func(point string)
 	Gen      string
 }
 
@@ -81,7 +83,7 @@ func RelSnap(p string) string {
 	return filepath.Base(p)
 }
 
-func (f *RecFS) Mount(ctx context.Context, mountpoint string, labels map[string]string) error {
+func (f *RecFS) MountX(ctx context.Context, mountpoint string, labels map[string]string) error {
 	t := simrt.Cur()
 	if !f.Quiet {
 		t.Yield("backend.Mount")
@@ -114,7 +116,7 @@ func (f *RecFS) Mount(ctx context.Context, mountpoint string, labels map[string]
 	return nil
 }
 
-func (f *RecFS) Check(ctx context.Context, mountpoint string, labels map[string]string) error {
+func (f *RecFS) CheckX(ctx context.Context, mountpoint string, labels map[string]string) error {
 	t := simrt.Cur()
 	if !f.Quiet {
 		t.Yield("backend.Check")
@@ -131,7 +133,7 @@ func (f *RecFS) Check(ctx context.Context, mountpoint string, labels map[string]
 	return nil
 }
 
-func (f *RecFS) Unmount(ctx context.Context, mountpoint string) error {
+func (f *RecFS) UnmountX(ctx context.Context, mountpoint string) error {
 	t := simrt.Cur()
 	if !f.Quiet {
 		t.Yield("backend.Unmount")
@@ -169,4 +171,31 @@ func (f *RecFS) ForceUnmount(mp string) error {
 	delete(f.Owner, mp)
 	f.rec(simrt.Cur(), "force-unmount", mp, true, nil)
 	return nil
+}
+
+func (f *RecFS) hook(p string) {
+	if f.Hook != nil && !f.Quiet {
+		f.Hook(p)
+	}
+}
+
+func (f *RecFS) Mount(ctx context.Context, mountpoint string, labels map[string]string) error {
+	f.hook("before backend.Mount")
+	err := f.MountX(ctx, mountpoint, labels)
+	f.hook("after backend.Mount")
+	return err
+}
+
+func (f *RecFS) Check(ctx context.Context, mountpoint string, labels map[string]string) error {
+	f.hook("before backend.Check")
+	err := f.CheckX(ctx, mountpoint, labels)
+	f.hook("after backend.Check")
+	return err
+}
+
+func (f *RecFS) Unmount(ctx context.Context, mountpoint string) error {
+	f.hook("before backend.Unmount")
+	err := f.UnmountX(ctx, mountpoint)
+	f.hook("after backend.Unmount")
+	return err
 }
